@@ -139,8 +139,6 @@ class _ComputeDiffInOuts(Contract):
         out += cache_valid(s1, g, di1, do1, "cv1")
         out += [(f"inv:{lb}", f) for lb, f in dep_graph_ok(L1, g)]
         out += [("disciplines-unchanged", z3.And(L0.n == L1.n, z3.ForAll([i], z3.Implies(z3.And(0 <= i, i < L0.n), L0.elems[i] == L1.elems[i]))))]
-        if self.cached:
-            out += [("same-structure", z3.BoolVal(s0._coupling_structure.ref.id == s1._coupling_structure.ref.id))]
         return out
 
 
@@ -330,13 +328,13 @@ def _add_inv1(c, k):
 
 @register
 class AdditiveComputeJacobianTwoDisciplines(_Additive):
-    """Bounded stand-in (2 disciplines - possibly the same one twice -, 1 summed output, 2 requested inputs - possibly equal): no loop
+    """Bounded stand-in (2 disciplines - possibly the same one twice -, 1 summed output, 1 requested input): no loop
     invariant, no summary of the comprehension or of ``sum``: the code is executed as it is written (also when it is rewritten), the
     blocks read from the disciplines are *the disciplines' arrays* (in-place modifications hit the frame clause)."""
 
     variant = "two-disciplines"
     self_schema = ADD + "#b2"
-    params = {"input_names": TNameTuple(2), "output_names": NAME_LIST}
+    params = {"input_names": TNameTuple(1), "output_names": NAME_LIST}
 
     @staticmethod
     def _parts(c):
